@@ -1,5 +1,6 @@
 import Proofs.FetchLimited
 import Proofs.LoadersUnbounded
+import Proofs.Load
 /-!
 # C09 — a log rebuilt from its published heads equals the original (fetcher part)
 
@@ -16,8 +17,12 @@ that closure is exactly `E`.  The hypotheses are the log invariant of C17/C02 (`
 `Model.Loaders` (no length limit) builds a log with the given id (the last entry's log id for
 `NewFromEntry`) whose entry map holds exactly the hashes of `E`.
 
-Not proved here: that `NewLog` recomputes the same heads and `values` from that entry set (C02/C03 of
-the log core); the `fetch` and `core` streams compare them on the implementation.
+`rebuilt_equals_original` (end of file): for a replica `l` with the log invariant `Inv U l` (every
+replica of every reachable system state, `Proofs.System.reachable_inv`), each loader on the result of
+any such execution from `l`'s head hashes yields a log `L` with `SameLog U l L`: the invariant again,
+the same id, the same entries, the same heads, and `values L = values l` whenever the ordering is a
+strict total order on the entries (`OrderOk`; without it `Values()` is not a function of the entry set
+at all — the C05 tie finding).
 -/
 namespace Model.C09
 
@@ -177,4 +182,132 @@ example : SourceInStore cfgU [e1, e2, e3, e4, e5] [[5]] where
     · exact a4
     · exact a5
 
+end Model.C09
+
+namespace Model.C09
+
+/-- what "equals the original" means for a rebuilt replica `L` of `l` -/
+structure SameLog (U : List Entry) (l L : Log) : Prop where
+  inv : Inv U L
+  id : L.id = l.id
+  entries : ∀ x, x ∈ L.entries ↔ x ∈ l.entries
+  heads : ∀ x, x ∈ L.heads ↔ x ∈ l.heads
+  /-- same linearisation whenever the ordering is a strict total order on the log's entries -/
+  values : L.sortFn = l.sortFn → OrderOk l.sortFn l.entries → values L = values l
+
+theorem sameLog_of_newLog {U : List Entry} (hU : (hashes U).Nodup) {l : Log} (I : Inv U l)
+    (ents heads : List Entry) (cid : Bytes) (k : SortKind)
+    (hin : ∀ e ∈ ents, e ∈ l.entries) (hall : ∀ e ∈ l.entries, e ∈ ents)
+    (hheads : heads = [] ∨ ((hashes heads).Nodup ∧ ∀ x, x ∈ heads ↔ x ∈ l.heads)) :
+    SameLog U l (newLog l.id cid k ents heads) := by
+  have hin' : ∀ e ∈ ents, e ∈ U := fun e he => I.inU e (hin e he)
+  have hset : ∀ h, h ∈ hashes ents ↔ h ∈ hashes l.entries := by
+    intro h
+    unfold hashes
+    simp only [List.mem_map]
+    exact ⟨fun ⟨e, he, hx⟩ => ⟨e, hin e he, hx⟩, fun ⟨e, he, hx⟩ => ⟨e, hall e he, hx⟩⟩
+  obtain ⟨h1, h2, h3, h4⟩ := newLog_rebuilds hU I ents heads cid k hin' hset hheads
+  refine ⟨h1, h2, h3, h4, ?_⟩
+  intro hk ho
+  have hk' : k = l.sortFn := hk
+  subst hk'
+  exact newLog_values hU I ents heads cid hin' hset hheads ho
+
+/-- **C09, end to end in the model**: a replica `l` of a reachable system (`Inv U l`) whose entries are in
+    the block store; *any* accepted unbounded execution of the fetcher from its head hashes; each of
+    the four loaders on the result ⇒ a log with the same id, the same entries, the same heads and —
+    under a strict total ordering — the same `Values()`. -/
+theorem rebuilt_equals_original {U : List Entry} (hU : (hashes U).Nodup) {l : Log} (I : Inv U l)
+    (cfg : FCfg) (roots : List Hash) (evs : List FEvent) (s : FState)
+    (hroots : ∀ h, h ∈ roots ↔ h ∈ hashes l.heads)
+    (hlen : cfg.length < 0) (hex : ∀ h, cfg.excluded h = false) (src : SourceInStore cfg l.entries roots)
+    (h : accepted cfg roots evs = some s) (hq : quiescent s) (hc : s.cancelled = false)
+    (clockId : Bytes) (k k' : SortKind)
+    (source : List Entry) (hsrc : ∀ e ∈ source, e ∈ l.entries) (hne : source ≠ []) :
+    SameLog U l (loadManifest clockId k k' l.id roots s.results (-1)) ∧
+    SameLog U l (loadEntryHash clockId k l.id s.results (-1)) ∧
+    SameLog U l (loadJSON clockId k l.id s.results (-1)) ∧
+    (∃ L, loadEntries clockId k source s.results (-1) = some L ∧ SameLog U l L) := by
+  obtain ⟨hmem, hnd⟩ := fetch_eq_source cfg l.entries roots evs s hlen hex src h hq hc
+  refine ⟨?_, ?_, ?_, ?_⟩
+  · unfold loadManifest
+    simp only [sortTrim_unbounded]
+    apply sameLog_of_newLog hU I _ _ _ _ (fun e he => (hmem e).mp he) (fun e he => (hmem e).mpr he)
+    right
+    constructor
+    · have : (hashes s.results).Nodup := hnd
+      unfold hashes at this ⊢
+      exact (List.Sublist.map _ List.filter_sublist).nodup this
+    · intro x
+      rw [List.mem_filter, List.contains_iff_mem, hroots, hmem]
+      constructor
+      · rintro ⟨hx, hh⟩
+        obtain ⟨y, hy, hyh⟩ := List.mem_map.mp hh
+        have : y = x := eq_of_hash_eq hU (I.inU y (I.headsIn y hy)) (I.inU x hx) hyh
+        exact this ▸ hy
+      · exact fun hx => ⟨I.headsIn x hx, List.mem_map.mpr ⟨x, hx, rfl⟩⟩
+  · unfold loadEntryHash
+    simp only [show ¬ ((-1 : Int) > -1) by decide, if_false, sortTrim_unbounded]
+    exact sameLog_of_newLog hU I _ _ _ _ (fun e he => (hmem e).mp he) (fun e he => (hmem e).mpr he) (Or.inl rfl)
+  · unfold loadJSON
+    simp only [show ¬ ((-1 : Int) > -1) by decide, if_false]
+    exact sameLog_of_newLog hU I _ _ _ _
+      (fun e he => (hmem e).mp ((goSort_perm _ _).mem_iff.mp he))
+      (fun e he => (goSort_perm _ _).mem_iff.mpr ((hmem e).mpr he)) (Or.inl rfl)
+  · obtain ⟨lastE, hlast, heq⟩ := loadEntries_unbounded_eq clockId k source s.results hne
+    have hin : ∀ e ∈ goSort clockAsc (omFromList (source ++ s.results)), e ∈ l.entries := by
+      intro e he
+      have := mem_omFromList ((goSort_perm _ _).mem_iff.mp he)
+      rcases List.mem_append.mp this with h1 | h1
+      · exact hsrc e h1
+      · exact (hmem e).mp h1
+    have hall : ∀ e ∈ l.entries, e ∈ goSort clockAsc (omFromList (source ++ s.results)) := by
+      intro e he
+      apply (goSort_perm _ _).mem_iff.mpr
+      have hx : e ∈ source ++ s.results := List.mem_append_right _ ((hmem e).mpr he)
+      have : has (omFromList (source ++ s.results)) e.hash = true := by
+        rw [has_omFromList]; exact has_of_mem hx
+      obtain ⟨y, hy, hyh⟩ := has_iff.mp this
+      have hyl : y ∈ l.entries := by
+        rcases List.mem_append.mp (mem_omFromList hy) with h1 | h1
+        · exact hsrc y h1
+        · exact (hmem y).mp h1
+      have : y = e := eq_of_hash_eq hU (I.inU y hyl) (I.inU e he) hyh
+      exact this ▸ hy
+    refine ⟨_, heq, ?_⟩
+    rw [I.logId lastE (hin lastE hlast)]
+    exact sameLog_of_newLog hU I _ _ _ _ hin hall (Or.inl rfl)
+
+end Model.C09
+
+namespace Model.C09
+/-! non-vacuity of `rebuilt_equals_original`: the five-entry log above as a replica -/
+def l5 : Log := { id := [7], entries := [e1, e2, e3, e4, e5], heads := [e5], nextIdx := [[1], [2], [3], [4]],
+                  clock := { id := [4], time := 4 }, sortFn := .lww }
+
+theorem inv_l5 : Inv [e1, e2, e3, e4, e5] l5 where
+  inU := fun _ h => h
+  nodup := by decide
+  closed := by decide
+  mono := by
+    intro e he c hc p hp
+    simp only [l5, List.mem_cons, List.not_mem_nil, or_false] at he
+    rcases he with rfl | rfl | rfl | rfl | rfl <;>
+      simp only [e1, e2, e3, e4, e5, List.mem_cons, List.not_mem_nil, or_false] at hc
+    · rcases hc with rfl; simp [l5, get?, e1, e2, e3, e4, e5] at hp; subst hp; decide
+    · rcases hc with rfl; simp [l5, get?, e1, e2, e3, e4, e5] at hp; subst hp; decide
+    · rcases hc with rfl; simp [l5, get?, e1, e2, e3, e4, e5] at hp; subst hp; decide
+    · rcases hc with rfl | rfl <;> (simp [l5, get?, e1, e2, e3, e4, e5] at hp; subst hp; decide)
+  headsIn := by decide
+  headsNodup := by decide
+  headsSpec := by unfold namedBy; decide
+  headsUnref := by unfold namedBy; decide
+  nextIdx := by
+    intro h
+    simp [namedBy, l5, e1, e2, e3, e4, e5]
+    done
+  logId := by decide
+
+example : ∃ L, loadEntries [9] .lww [e5] [e5, e2, e4, e1, e3] (-1) = some L ∧ values L = values l5 := by
+  decide
 end Model.C09
